@@ -128,7 +128,20 @@ def check(run: Run) -> None:
     keys, values = d.get("keys"), d.get("values")
     ok_vals = values == ("attr", ap, "args")
     n_pos = ("app", ("global", "builtins.len"), (("attr", ap, "args"),), ())
-    ok_keys = keys is not None and keys[0] == "comp" and keys[2][0] == "new" and keys[2][1] == "Constant" and len(keys[3]) == 1 and keys[3][0][0] == ("slice", sigp, None, n_pos) and dict(keys[2][2]).get("value") == ("elem", keys[3][0][0])
+    parts = []
+    k = keys
+    while k is not None and k[0] == "concat":
+        parts.insert(0, k[2])
+        k = k[1]
+    if k is not None:
+        parts.insert(0, k)
+    first = parts[0] if parts else None
+    ok_keys = first is not None and first[0] == "comp" and first[2][0] == "new" and first[2][1] == "Constant" and len(first[3]) == 1 and first[3][0][0] == ("slice", sigp, None, n_pos) and not first[3][0][1] and dict(first[2][2]).get("value") == ("elem", first[3][0][0])
+    rest_t = ("slice", sigp, n_pos, None)
+    for extra in parts[1:]:
+        # names taken by keyword: [Constant(n) for n in names[len(args):] if n in lookup]
+        ok_e = extra[0] == "comp" and extra[2][0] == "new" and extra[2][1] == "Constant" and dict(extra[2][2]).get("value") == ("elem", rest_t) and len(extra[3]) == 1 and extra[3][0][0] == rest_t and len(extra[3][0][1]) == 1 and extra[3][0][1][0][0] == "op" and extra[3][0][1][0][1] == "Compare:In" and extra[3][0][1][0][2][0] == ("elem", rest_t)
+        ok_keys = ok_keys and ok_e
     run.check(ok_vals and ok_keys, "C06.R4", cd, cd.node, "positional values bind to sig_arg_names[:len(args)] in order", f"convert_call_to_dict returns {show(rt)[:200]}: positional arguments are not bound to the first len(args) field names in order", term=show(rt))
     # keywords by name among the remaining names
     loops = [n for n in own_nodes(cd) if isinstance(n, ast.For)]
